@@ -39,7 +39,7 @@ check("C12", "model_checking",
       "Balancer.__run_pipeline memoised per (configuration, batch) behind the real cache logic; kill = prefix of the recorded file effects (file-effect recorder wraps open/os.replace/rename/remove); persistent state = cache directory only.",
       "explicit-state breadth-first search over persistent state with crash-point (torn write) enumeration, differential oracle vs uncached run", "DESIGN.md 4/C12")
 check("C05", "exploration",
-      "Complete enumeration of row sequences over an alphabet of 2 valid and 9 malformed/missing reaction values (quick: length <= 2 for all sources, length 3 over a 6-symbol sub-alphabet; thorough: length <= 3, <= 4 for list-of-str) x every batch layout (None, 1..n+1) x sources (list of str, list of dict, CSV Dataset, JSON Dataset) and the command line (argparse entry in process, plus real `python -m synrbl run` subprocess cases) with --out-columns; each output row must sit at its input's position, describe that input, and valid rows must equal their alone-run result.",
+      "Complete enumeration of row sequences over an alphabet of 2 valid and 11 malformed/missing reaction values (unparsable text, valence and kekulisation errors, no or several separators, empty strings/sides, None/NaN/absent) (quick: length <= 2 for all sources, length 3 over a 6-symbol sub-alphabet; thorough: length <= 3, <= 4 for list-of-str) x every batch layout (None, 1..n+1) x sources (list of str, list of dict, CSV Dataset, JSON Dataset) and the command line (argparse entry in process, plus real `python -m synrbl run` subprocess cases) with --out-columns; each output row must sit at its input's position, describe that input, and valid rows must equal their alone-run result.",
       "Explicit refusals (ValueError for non-str/dict list elements; CLI rejecting a file whose first row is no reaction, nothing written) are accepted; longer sequences and other malformed shapes are out of bound.",
       "bounded-exhaustive enumeration of operation (row) sequences x batch layouts x source forms, positional oracle", "DESIGN.md 4/C05")
 check("C06", "model_checking",
